@@ -12,6 +12,7 @@ container positions by a second pass of the same behaviours.
 from __future__ import annotations
 
 import copy
+import json
 
 from harness import common, tlc
 
@@ -411,10 +412,39 @@ def root_leaves(chk):
       chk.violation(f'root-leaf:not-mapped:{kind}', f'TreeMapView({leaf!r}, map_fn).apply() = {applied!r}; a nested {leaf!r} is mapped', ctx)
 
 
+def aliased_subtrees(chk):
+  """TreeView.tla's trees are values: the same sub-container OBJECT referenced from several places of a tree (no cycle) is a
+  subtree at each of them - listing, reading back and apply() agree with the deep-copied (alias-free) tree."""
+  from ml_metrics._src.chainables import tree
+  s, l = {'x': 1, 'y': [2, 3]}, [4, 5]
+  for name, data in (('dict-of-shared', {'a': s, 'b': {'c': s, 'd': l}, 'e': (l, 6)}), ('list-of-shared', [l, l, {'k': l}]),
+                     ('same-leaf-container-twice', {'p': l, 'q': l})):
+    twin = copy.deepcopy(data)            # deepcopy keeps the sharing: rebuild without it
+    plain = json.loads(json.dumps(data)) if name != 'dict-of-shared' else {'a': json.loads(json.dumps(s)), 'b': {'c': json.loads(json.dumps(s)), 'd': list(l)}, 'e': (list(l), 6)}
+    ctx = dict(kind='treeview-aliased', tree=name)
+    try:
+      keys, keys_plain = list(tree.TreeMapView(data).keys()), list(tree.TreeMapView(plain).keys())
+      vals = [tree.TreeMapView(data)[k] for k in keys]
+      applied = tree.TreeMapView(data, map_fn=leaf_fn).apply()
+      applied_plain = tree.TreeMapView(plain, map_fn=leaf_fn).apply()
+    except Exception as e:  # pylint: disable=broad-exception-caught
+      chk.violation(f'aliased:exception:{type(e).__name__}', f'{name}: {e!r}', ctx)
+      continue
+    chk.replayed()
+    if [repr(k) for k in keys] != [repr(k) for k in keys_plain]:
+      chk.violation('aliased:leaves', f'{name}: {data!r} lists {keys!r}; the same tree without shared objects lists {keys_plain!r}', ctx)
+    elif canon(applied) != canon(applied_plain):
+      chk.violation('aliased:apply', f'{name}: apply() gives {applied!r}; without shared objects {applied_plain!r}', ctx)
+    elif canon(data) != canon(twin):
+      chk.violation('aliased:mutation', f'{name}: the viewed data changed: {twin!r} -> {data!r}', ctx)
+    del vals
+
+
 def body(chk):
   b = _bounds(chk.tier)
   value_kinds(chk)
   root_leaves(chk)
+  aliased_subtrees(chk)
   chk.coverage['bounds'] = b
   for c in b['mc']:
     mc = tlc.run('pipeline', 'TreeView', tlc.cfg_text(constants=c, invariants=LAWS, view='View', deadlock=False),
